@@ -79,6 +79,21 @@ register('C19',
          'DESIGN.md 5/C19')
 
 
+register('C11',
+         'EcGroup.tla writes the chord-and-tangent law definitionally over F_p; TLC checks on four whole prime-order groups '
+         '(orders 67..73, incl. an a = -3 and two a = 0 curves) closure, identity, inverse, commutativity, associativity on all '
+         'triples, the isomorphism k -> kG with Z_q and scalar multiplication by every integer in -3..q+2. The real EcCurve class '
+         '(size-generic) is constructed on the same curves and every public point operation is replayed: all pairs for Add/'
+         'Subtract/AddJacobian (random Z-scaling), all points x scalars -q..2q for Multiply/MultiplyAffine, batched operations on '
+         'every list of <= 4 special-case classes (inf, same, opposite, double, generic) sharing one inversion, BatchInverse, '
+         'BatchMultiplyG, PointSequence; TLC recomputes every result from its own law (EcTrace.tla). Named curves: same case '
+         'classes against a 30-line reference law, parameter sanity per CURVE_FACTORY entry (T2).',
+         'Trusted: TLC; for named curves refec.py and gmpy2.is_prime (Miller-Rabin). Curves with a cofactor are not used here (the '
+         'property quantifies over prime-order groups).',
+         'TLA+ group-law spec (EcGroup.tla) model-checked on whole small groups with TLC + exhaustive replay into EcCurve + TLC trace validation',
+         'DESIGN.md 5/C11')
+
+
 def main():
   props = [json.loads(l)['id'] for l in open(os.path.join(HOME, 'properties.jsonl'))]
   checks = []
